@@ -1,4 +1,5 @@
 import MpVerif.C20.ModelGraph
+import MpVerif.C20.ModelExport
 /-! Line driver for C20.  One op per line, one answer line per op; no logic of its own.
 
   W <op>*            writer machine: ops `k:<hex>` `e` `s:<hex>` `t:<hex>` `c`  ->  hex of the text written
@@ -9,6 +10,8 @@ import MpVerif.C20.ModelGraph
   V a b              delivered: vars objs
   C <hexty> g <hexname>   one delivered constraint (short type name, group, name)
   check              -> `ok` | `fail <reasons>`
+  X <op>*            link-export protocol: ops `a:<c|o|m>:<src>:<sb>:<se>:<dst>:<db>:<de>` (AddEntry) and `f` (finish)
+                     -> `<hex of the exported text> <final entries by registered range> all=<0|1> late=<0|1>`
 -/
 open MpVerif.C20
 
@@ -52,6 +55,31 @@ def parseOp (t : String) : Option Op :=
       | _ => none
     | _ => none
 
+def parseXOp (t : String) : Option XOp :=
+  if t == "f" then some .finish else
+  match t.splitOn ":" with
+  | ["a", k, sn, sb, se, dn, db, de] =>
+    let kind : Option LKind := if k == "c" then some .copy else if k == "o" then some .one2many
+      else if k == "m" then some .many2one else none
+    match kind, sb.toNat?, se.toNat?, db.toNat?, de.toNat? with
+    | some kd, some sb, some se, some db, some de => some (.add kd (⟨sn.toList, sb, se⟩, ⟨dn.toList, db, de⟩))
+    | _, _, _, _, _ => none
+  | _ => none
+
+def kindChar : LKind → String
+  | .copy => "c" | .one2many => "o" | .many2one => "m"
+
+def finalDump (s : PState) : String :=
+  let rec go (i : Nat) : List LRange → String
+    | [] => ""
+    | r :: rs =>
+      ((List.range' r.beg (r.end_ - r.beg)).foldl (fun acc j =>
+        let e := extentOf s r.link j
+        acc ++ s!"{i},{kindChar r.link},{j},{String.ofList e.1.node},{e.1.beg},{e.1.end_},{String.ofList e.2.node},{e.2.beg},{e.2.end_};") "")
+      ++ go (i + 1) rs
+  let d := go 0 s.brl
+  if d == "" then "-" else d
+
 structure DState where
   lines : List (Option Rec) := []      -- reversed
   bad : Bool := false
@@ -74,6 +102,14 @@ partial def loop (h : IO.FS.Stream) (out : IO.FS.Stream) (st : DState) : IO Unit
       | none => out.putStrLn "none"
       loop h out st
     | some none => out.putStrLn "badutf8"; loop h out st
+    | none => out.putStrLn "bad-op"; loop h out st
+  | "X" :: ops =>
+    match ops.mapM parseXOp with
+    | some os =>
+      let s := xrun {} os
+      out.putStrLn (hexOfStr (exportText s) ++ " " ++ finalDump s ++ " all=" ++ (if allEntriesExported s then "1" else "0")
+                    ++ " late=" ++ (if s.late then "1" else "0"))
+      loop h out st
     | none => out.putStrLn "bad-op"; loop h out st
   | ["reset"] => out.putStrLn "ok"; loop h out {}
   | ["L", hx] =>
